@@ -63,6 +63,10 @@ class C03Fill1D(Harness):
         for hist in HIST[1] + HIST[2][:3]:
             yield (f"1d-K{len(_chunks(hist)[-1][1]) + _chunks(hist)[-1][1][0]}-M2-{_hname(hist)}-wint-k1-g0-openright",
                    dict(K=_chunks(hist)[-1][1][-1] + 1, M=2, hist=hist, weights="int", keep_missed=True, gap=False, has_n=any(c[0] == "n" for c in hist), inc=False))
+        # NaN entered through fill(): skipped like in fill_n and at construction (returns None, find_bin agrees, nothing changes)
+        for hist, keep in ((["f"], True), (["f"], False), (["f", "f"], True), (["n1", "f"], True), (["f", "n0", "n1"], True)):
+            K = _chunks(hist)[-1][1][-1] + 1
+            yield (f"1d-K{K}-M2-{_hname(hist)}-wint-k{int(keep)}-g0-nanfill", dict(K=K, M=2, hist=hist, weights="int", keep_missed=keep, gap=False, has_n=any(c[0] == "n" for c in hist), nanfill=True))
         # an infinite value (not NaN: it is overflow, with its weight) as the last of K=2 values, in every call structure
         for hist in HIST[2]:
             for wk in ("none", "real"):
@@ -72,7 +76,7 @@ class C03Fill1D(Harness):
         K, M = p["K"], p["M"]
         chunks = _chunks(p["hist"])
         in_fill = {i for kind, idx in chunks if kind == "f" for i in idx}
-        x = {"v": [cx.real(f"v{i}", nan=(i not in in_fill)) for i in range(K)]}
+        x = {"v": [cx.real(f"v{i}", nan=(i not in in_fill or bool(p.get("nanfill")))) for i in range(K)]}
         if p["weights"] == "int":
             x["w"] = [cx.pyint(f"w{i}", lo=0) for i in range(K)]
         elif p["weights"] == "real":
@@ -160,13 +164,14 @@ class C03Fill1D(Harness):
                 conds.append((memb[i][j], j))
             for r_, name in ((ret, "fill_returns"), (fb, "find_bin_returns")):
                 if r_ is None:
-                    ok = z3.And([z3.Not(c) for c, _ in conds] + [v[i] >= L[0], v[i] <= R[-1]])
+                    # None: a value in a gap - or NaN, which is not entered at all
+                    ok = z3.Or(nan[i], z3.And([z3.Not(c) for c, _ in conds] + [v[i] >= L[0], v[i] <= R[-1]]))
                 elif isinstance(r_, Raised):
                     ok = z3.BoolVal(False)
                 else:
                     rt = cx.t(r_)
-                    ok = z3.And([z3.Implies(c, rt == j) for c, j in conds] + [z3.Implies(v[i] < L[0], rt == -1), z3.Implies(v[i] > R[-1], rt == M),
-                                                                                z3.Or([c for c, _ in conds] + [v[i] < L[0], v[i] > R[-1]])])
+                    ok = z3.And([z3.Not(nan[i])] + [z3.Implies(c, rt == j) for c, j in conds] + [z3.Implies(v[i] < L[0], rt == -1), z3.Implies(v[i] > R[-1], rt == M),
+                                                                                                   z3.Or([c for c, _ in conds] + [v[i] < L[0], v[i] > R[-1]])])
                 yield f"{name}[{i}]", ok
             pre_f, post_f, pre_e, post_e, pre_m, post_m = obs["fb_pure_" + str(i)]
             same = [cx.t(a) == cx.t(b) for a, b in zip(pre_f + pre_e, post_f + post_e)]
@@ -223,6 +228,10 @@ class C03FillND(Harness):
         yield ("nd-K3-S1x2-iTF-n3-wnone-k1-columns", dict(K=3, shape=[1, 2], inc=[True, False], hist=["n3"], weights="none", keep_missed=True, columns=True))
         for hist in (["n2"], ["f", "n1"], ["f", "f"]):
             yield (f"nd-K2-S2x1-iTF-{_hname(hist)}-wsigned-k1", dict(K=2, shape=[2, 1], inc=[True, False], hist=hist, weights="sreal", keep_missed=True))
+        # NaN coordinates entered through fill(): the row is skipped like in fill_n and at construction
+        for hist, keep in ((["f"], True), (["f"], False), (["f", "n1"], True)):
+            K = _chunks(hist)[-1][1][-1] + 1
+            yield (f"nd-K{K}-S2x1-iTF-{_hname(hist)}-wint-k{int(keep)}-nanfill", dict(K=K, shape=[2, 1], inc=[True, False], hist=hist, weights="int", keep_missed=keep, nanfill=True))
         # an axis of three bins separated by two gaps (every junction gapped)
         for hist in ND_HIST[1]:
             for inc in ("TF", "FT"):
@@ -233,7 +242,7 @@ class C03FillND(Harness):
         D = len(shape)
         chunks = _chunks(p["hist"])
         in_fill = {i for kind, idx in chunks if kind == "f" for i in idx}
-        x = {"x": [[cx.real(f"x{i}_{k}", nan=(i not in in_fill)) for k in range(D)] for i in range(K)]}
+        x = {"x": [[cx.real(f"x{i}_{k}", nan=(i not in in_fill or bool(p.get("nanfill")))) for k in range(D)] for i in range(K)]}
         if p["weights"] == "int":
             x["w"] = [cx.pyint(f"w{i}", lo=0) for i in range(K)]
         elif p["weights"] in ("real", "sreal"):
@@ -450,8 +459,10 @@ class C03Transformed(Harness):
         flat = lambda a: [c for r in a for c in (flat(r) if isinstance(r, list) else [r])]  # noqa: E731
         if obs.get("nan_case"):
             A, B = obs["fill"], obs["fill_n"]
-            yield "fill_and_fill_n_agree", z3.And([cx.t(u) == cx.t(v) for u, v in zip(flat(A["freq"]) + flat(A["err2"]) + [A["missed"]], flat(B["freq"]) + flat(B["err2"]) + [B["missed"]])])
-            yield "nan_point_is_missed", z3.And(cx.t(A["missed"]) == w, cx.t(B["missed"]) == w)
+            # fill() has no dropna option: a NaN point is skipped (as by fill_n's default and at construction); fill_n(dropna=False) was asked to keep the
+            # row, which lies in no cell
+            yield "nan_fill_enters_nothing", z3.And([cx.t(u) == 0 for u in flat(A["freq"]) + flat(A["err2"]) + [A["missed"]]])
+            yield "nan_point_is_missed", z3.And([cx.t(u) == 0 for u in flat(B["freq"]) + flat(B["err2"])] + [cx.t(B["missed"]) == w])
             return
         A, B, C = obs["fill"], obs["fill_n"], obs["lshift"]
         yield "fill_and_fill_n_agree", z3.And([cx.t(u) == cx.t(v) for u, v in zip(flat(A["freq"]) + flat(A["err2"]) + [A["missed"]], flat(B["freq"]) + flat(B["err2"]) + [B["missed"]])])
